@@ -2,6 +2,7 @@ package main
 
 import (
 	"fmt"
+	"regexp"
 	"strings"
 )
 
@@ -410,8 +411,46 @@ func genC16(g *genCtx) {
 		}
 		return s
 	}
+	// replacement templates against the template model and its specification (kind tmpl): the pattern matches the
+	// whole subject exactly once; the groups of that match (from Go regexp) travel with the case
+	type pat struct{ p, s string }
+	pats := []pat{
+		{"abc", "abc"}, {"(a)bc", "abc"}, {"a(b)?c", "ac"}, {"a(b)?c", "abc"}, {"(?P<n>a)bc", "abc"}, {"(a)(b)c", "abc"},
+		{"(a)|(b)", "b"}, {"(a)(b)(c)", "abc"}, {"(?P<x>a)(?P<y1>b)(?P<_z>c)", "abc"}, {"(?P<1x>a)(b)", "ab"},
+		{"(?P<x>a)|(?P<y>b)", "b"}, {"((a)(b))c", "abc"}, {"(a*)(b*)", "aab"}, {"()(a)", "a"},
+		{"(a)(b)(c)(d)(e)(f)(g)(h)(i)", "abcdefghi"}, {"(a)(b)(c)(d)(e)(f)(g)(h)(i)(j)", "abcdefghij"},
+		{"(a)(b)(c)(d)(e)(f)(g)(h)(i)(j)(k)", "abcdefghijk"}, {"(a)(b)(c)(d)(e)(f)(g)(h)(i)(j)(k)(l)", "abcdefghijkl"},
+		{"(a)(b)(c)(d)(e)(f)(g)(h)(i)(j)?(k)?(l)", "abcdefghil"}, {"(?P<a0>a)(b)(c)(d)(e)(f)(g)(h)(i)(?P<x>j)(k)", "abcdefghijk"},
+	}
+	talpha := []string{"$", "$", "$", "$", "0", "1", "1", "2", "3", "9", "{", "}", "x", "y", "_", "n", "a0", "\\", " ", "-", "$1", "${", "$$", "10", "11", "12", "01"}
+	dT := Doc{{Depth: 0, Kind: 'r'}}
+	for i := 0; i < g.scale(6000, 60000); i++ {
+		pt := r.intn(len(pats))
+		p0 := pats[pt]
+		re := regexp.MustCompile(p0.p)
+		ms := re.FindAllStringSubmatchIndex(p0.s, -1)
+		if len(ms) != 1 || ms[0][0] != 0 || ms[0][1] != len(p0.s) {
+			continue
+		}
+		var ts, ns []string
+		for gi := 0; gi <= re.NumSubexp(); gi++ {
+			if ms[0][2*gi] < 0 {
+				ts = append(ts, "-")
+			} else {
+				ts = append(ts, "x"+hx(p0.s[ms[0][2*gi]:ms[0][2*gi+1]]))
+			}
+			ns = append(ns, "x"+hx(re.SubexpNames()[gi]))
+		}
+		var tb strings.Builder
+		for n := r.intn(7); n > 0; n-- {
+			tb.WriteString(r.pick(talpha))
+		}
+		tm := tb.String()
+		g.add(&Case{Kind: "tmpl", Doc: dT, Ctx: Ref{0, -1}, Expr: "replace('" + p0.s + "','" + p0.p + "','" + tm + "')",
+			Extra: hx(tm) + ";" + fmt.Sprint(re.NumSubexp()) + ";" + strings.Join(ts, "|") + ";" + strings.Join(ns, "|")})
+	}
 	subj := []string{"", "a", "ab", "abc", "aab", "xbx", "1a2", "abab", "cab"}
-	repl := []string{"", "x", "$1", "$2", "[$1]", "$1$2", "$12", "$10", "a$1b", "$1a", "$$", "$0", "${1}", "\\$1", "$", "$3", "$11", "x$1$1"}
+	repl := []string{"", "x", "$1", "$2", "[$1]", "$1$2", "$12", "$10", "a$1b", "$1a", "$$", "$0", "${1}", "\\$1", "$", "$3", "$11", "x$1$1", "$$1", "$$$1", "$01", "$1x", "${1}x", "$$$$2"}
 	d := Doc{{Depth: 0, Kind: 'r'}}
 	for i := 0; i < g.scale(8000, 80000); i++ {
 		s, p := r.pick(subj), genRe()
